@@ -400,11 +400,13 @@ def check(tier):
             if len(A) < 100 or len(Bs) < 100:
                 raise lib.Inconclusive("summary enumeration too small: %d / %d" % (len(A), len(Bs)))
             over = [json.loads(x) for x in A - Bs]
-            bad = [s for s in over if not (s["killed"] and s["ret"] == "ok")]
+            # outcomes of the pipeline model that the observable specification forbids must all be the known defect:
+            # after a cancel, a successful return or a short "final" callback (more callbacks than full batches)
+            bad = [s for s in over if not (s["killed"] and (s["ret"] == "ok" or s["ncb"] > s["sent"] // 2))]
             if bad:
                 raise lib.Inconclusive("the pipeline model reaches outcomes outside the observable specification: %s" % bad[:3])
             extra["obs_spec_tightness"] = {"pipeline_outcomes": len(A), "observable_outcomes": len(Bs),
-                                           "pipeline_only(kill, ok, truncated)": len(over), "observable_only": len(Bs - A),
+                                           "pipeline_only(cancelled, truncated final callback)": len(over), "observable_only": len(Bs - A),
                                            "observable_only_sample": [json.loads(x) for x in sorted(Bs - A)[:3]]}
         rc = v.finish()
         if witness_hits == 0:
